@@ -433,6 +433,35 @@ def alt_family(seed, n, maxlen=4, budget=8000):
     return out
 
 
+def alt_env_family(seed, n, maxlen=2, budget=3000):
+    """choices whose branches hold environment-backed items (C18): the command line beats the environment across
+    alternatives, the environment alone selects the first branch it satisfies"""
+    rnd = random.Random(seed)
+    out = []
+    wraps = ["one", "opt", "many", "some"]
+    pool = [
+        lambda i, v: branch(ar(f"b{i}", "one", rnd.choice(["int", "str"]), f"--name{i}", env=v)),
+        lambda i, v: branch(rf(f"b{i}", "one", f"--flag{i}", env=v)),
+        lambda i, v: branch(rf(f"b{i}", "one", f"--on{i}"), ar(f"c{i}", "one", "int", f"--lvl{i}", env=v)),
+        lambda i, v: branch(ar(f"b{i}", "one", "str", f"--key{i}", env=v), ar(f"c{i}", "opt", "str", f"--opt{i}")),
+        lambda i, v: branch(rf(f"b{i}", "one", f"--plain{i}")),
+        lambda i, v: branch(ar(f"b{i}", "one", "int", f"--num{i}", env=v, guard=True)),
+    ]
+    while len(out) < n:
+        nb = rnd.choice([2, 2, 3])
+        picks = [rnd.randrange(len(pool)) for _ in range(nb)]
+        branches = [pool[p](i, f"BPAF_VERIF_V{i % 2}") for i, p in enumerate(picks)]
+        if not any(l.get("env") for b in branches for l in b["fields"]):
+            continue
+        g = altf("g0", wraps[len(out) % 4], *branches)
+        others = [sw("o1", "-v")] if rnd.random() < 0.4 else []
+        d = mkdef(f"altenv{seed}_{len(out)}", level(others + [g], NOTAIL), maxlen=maxlen, extras=rnd.choice([("unk",), ()]),
+                  spells=("eq",), words=("1", "x"), envvals=("UNSET", "1", "x", "2"))
+        galpha_trim(d, budget)
+        out.append(d)
+    return out
+
+
 def acmd_hole_defs(seed):
     """an adjacent subcommand between an option declared before it and one declared after it: the
     earlier option consumes its item first and leaves a hole in the command's window"""
